@@ -386,3 +386,28 @@ def r5(ctx):
     for r in list(c16.r3(ctx)) + [x for x in c16.r2(ctx) if "offset" in x.key or "constructors" in x.key or x.status != "PASS"]:
         r.rule = "C03-R5"
         yield r
+
+
+ENTRY = "signature::sigv4_validate_request"
+HANDOFFS = [
+    # (caller coroutine, callee, {argument position: caller's parameter})
+    (ENTRY, r"SigV4Authenticator::validate_signature$", {1: "region", 2: "service"}),
+    (VS, r"SigV4Authenticator::prevalidate$", {1: "region", 2: "service"}),
+    (VS, r"SigV4Authenticator::get_signing_key$", {1: "region", 2: "service"}),
+]
+
+
+@M.rule("C03-R7", "the server's region and service reach the scope check and the key request exactly as the caller configured them")
+def r7(ctx):
+    """The scope comparison (R2) is against prevalidate's parameters; this rule pins those to the public entry point's own
+    `region` / `service`: handed on as they are at each of the three call sites (no trimming, re-casing, defaulting)."""
+    for caller, callee, amap in HANDOFFS:
+        b = ctx.co(caller)
+        c = one(b.calls(callee), "%s call in %s" % (callee.strip("$").split("::")[-1], caller))
+        for pos, nm in sorted(amap.items()):
+            ctx.count()
+            key = "%s->%s/%s" % (caller.split("::")[-1], callee.strip("$").split("::")[-1], nm)
+            if pos >= len(c[1]["args"]) or not handed_on_unchanged(b, c[1]["args"][pos], nm):
+                yield VIOL("C03-R7", "handoff/" + key, "argument %d of %s is not the caller's own `%s` handed on unchanged: the credential scope is compared with (or the key is requested for) something other than the configured %s" % (pos, callee.strip("$").split("::")[-1], nm, nm), where=b.span_of_block(c[0]))
+            else:
+                yield PASS("C03-R7", "handoff/" + key, "`%s` handed on unchanged" % nm, [site(b, c[0], callee.strip("$").split("::")[-1])])
